@@ -167,6 +167,7 @@ func (m *lockedMap[V]) get(key, conflict uint64) (V, bool) {
 	m.RLock()
 	item, ok := m.data[key]
 	m.RUnlock()
+	verifPoint(vpLockedGetRead)
 	if !ok {
 		return zeroValue[V](), false
 	}
